@@ -156,7 +156,13 @@ def make_step(sid, length, order_name, orders, first_idx, second_idx=None, kind=
                   length, kind, order_name, first_idx, "" if second_idx is None else ", second at %d" % second_idx, slot_idx))
 
 
-def make_history(sid, sizes, order_name, orders, extra):
+def _need(n, kind):
+    """granules the stored stream of a file needs (property text: the minimum for its length, one more at an exact multiple)"""
+    stream = n + (10 if kind == "ml" else 0)      # ML: 5-byte preamble + 5-byte postamble; BASIC / ASCII: the bytes themselves
+    return stream // OD.GRAN + 1
+
+
+def make_history(sid, sizes, order_name, orders, extra, kinds=None, names=None):
     """native history: add the files in turn to an empty disk through VirtualFile + in-memory host FS, saving and
     re-opening after each (what --append does); then one more file that cannot fit must fail and leave the host file"""
     def body(ctx):
@@ -164,7 +170,9 @@ def make_history(sid, sizes, order_name, orders, extra):
             stored = []
             for i, n in enumerate(sizes + [extra]):
                 vf = VirtualFile(SourceFile("d.dsk", file_type=SourceFileType.BINARY), VirtualFileType.DISK)
-                cf = CoCoFile(name="F%d" % i, extension="BIN", type=NumericValue(2), data_type=NumericValue(0),
+                kind = (kinds[i] if kinds and i < len(kinds) else "ml")
+                ft, dt = {"ml": (2, 0), "basic": (0, 0), "ascii": (0, 0xFF)}[kind]
+                cf = CoCoFile(name=(names[i] if names and i < len(names) else "F%d" % i), extension="BIN", type=NumericValue(ft), data_type=NumericValue(dt),
                               load_addr=NumericValue(0x2000 + i), exec_addr=NumericValue(0x2000 + i),
                               data=[(i + j) % 256 for j in range(n)])
                 before = fs.files.get("d.dsk")
@@ -183,6 +191,14 @@ def make_history(sid, sizes, order_name, orders, extra):
                 if err is not None:
                     return False, {"failed_at": i, "error": err}
                 stored.append(cf)
+                # independent accounting of the host image: one directory entry per stored file, and exactly the granules
+                # their streams need are no longer free
+                img = fs.files.get("d.dsk")
+                nent = len(OD.entries(img))
+                used = sum(1 for g in range(OD.NGRAN) if img[OD.FAT + g] != 0xFF)
+                want = sum(_need(sizes[j], (kinds[j] if kinds and j < len(kinds) else "ml")) for j in range(i + 1))
+                if nent != i + 1 or used != want:
+                    return False, {"after_file": i, "directory_entries": nent, "granules_in_use": used, "granules_expected": want}
             return True, {}
     ob = Ob("C15:history:%s" % sid, body, timeout=900, tags={"part": "history"},
             text="empty disk + %d files of %s bytes, then %d bytes more [%s]" % (len(sizes), sorted(set(sizes)), extra, order_name), r4=False)
@@ -230,6 +246,11 @@ def obligations(tier, seed):
             out.append(o)
     out.append(make_history("68-small", [10] * 68, "default", orders, 10))
     out.append(make_history("large", [65000, 65000], "default", orders, 30000))
+    # exactly full: BASIC / ASCII files whose lengths end just below a granule boundary (1 granule each) + 1-granule ML files
+    out.append(make_history("exact-fill", [2299, 2300, 2303, 4603] + [10] * 63, "default", orders, 10, kinds=["basic", "basic", "ascii", "ascii"]))
+    # names as they arrive from raw cassette headers (NUL padding in front of / inside / behind the name)
+    out.append(make_history("nul-names", [10, 2300, 10, 10, 10], "default", orders, 160000,
+                            names=["\0AB", "A\0B", "AB\0\0\0\0\0\0", "\0", "PLAIN"]))
     out.append(make_history("mixed", [20000, 100, 2300, 50000, 10, 4700] + [3000] * 10, "default", orders, 60000))
     return out
 
